@@ -49,7 +49,7 @@ func verifTrim(s string) string { return strings.TrimSpace(s) }
 // Verif_C16_NoDollarUnchanged: a value without '$' is left as written whatever
 // the environment; list items are whitespace-trimmed and dropped when empty.
 func Verif_C16_NoDollarUnchanged() {
-	n := v.NondetChoice("len", v.Bound("C16.len", 2, 3)+1) // one fork: all values share a length 0..bound
+	n := v.NondetChoice("len", v.Bound("C16.len", 2, 4)+1) // one fork: all values share a length 0..bound
 	cfg := &Config{}
 	cfg.envMappingFunc = func(name string) string { return v.NondetString("env", 2) }
 	name, ver, rel, pre := verifPlain("name", n), verifPlain("version", n), verifPlain("release", n), verifPlain("prerelease", n)
